@@ -38,6 +38,21 @@ def run(tier, seed):
         for j, (nd, nu) in enumerate([(20000, 12600), (20000, 13000), (30000, 2760), (32760, 32760), (1, 32767), (16384, 16384)]):
             plans.append({"id": "long%d" % j, "domain": [68 + (i % 20) for i in range(nd)], "user": [97 + (i % 26) for i in range(nu)], "password": [112, 119], "mode": "hash" if j % 2 else "password",
                           "flagclass": "default", "flags": ntlm.FLAGS["default"], "sc": [9, 8, 7, 6, 5, 4, 3, 2], "ti": [[2, [68, 0]], [7, [1, 2, 3, 4, 5, 6, 7, 8]]], "tname": [83, 0]})
+        # the object that built the token has served another handshake before (the API takes &mut self): what the earlier
+        # server negotiated - character set, version, target info - must leave no trace in the second token
+        k = 0
+        for q in list(plans):
+            if q["id"].startswith("a") and k < 160 and q.get("flagclass") is not None:
+                for first in ("default", "oem", "noversion"):
+                    if first != q["flagclass"] and (k % 3 == 0 or "oem" in (first + q["flagclass"])):
+                        r = json.loads(json.dumps(q)); r["id"] = "%s-after-%s" % (q["id"], first); r["reuse"] = True; r["reuse_flags"] = ntlm.FLAGS[first]
+                        plans.append(r)
+                k += 1
+        # pass phrases longer than any fixed buffer (257, 1 000 and 5 000 UTF-16 units, BMP and beyond)
+        for j, n in enumerate((255, 256, 257, 1000, 5000)):
+            for mode in ("password", "hash"):
+                plans.append({"id": "longpw%d-%s" % (n, mode), "domain": [100], "user": [117, 115, 114], "password": [33 + ((7 * i) % 90) if i % 50 else 0x1f511 for i in range(n)], "mode": mode,
+                              "flagclass": "default", "flags": ntlm.FLAGS["default"], "sc": [1, 1, 2, 3, 5, 8, 13, 21], "ti": [[2, [68, 0]], [7, [1, 2, 3, 4, 5, 6, 7, 8]]], "tname": [83, 0]})
         trace = ntlm.run(wd, plans, "c15")
         accepted, rejects = core.tv_all("Trace_Ntlm", trace, "/dev/null", wd, shards=8, max_rejects=5, overrides=True)
         for r in rejects:
